@@ -50,6 +50,8 @@ def base_run(pid, tier, seed, rule, props_v=None, theorems=None):
             # translator T6: the tokenizer's lexical tables (kind numbers, keywords, token tree, skipped bytes) regenerated from the source; front/TokTie.v
             # proves that the hand-written tokenizer model's tables are those (C10_tables); built with every front-end property, whose model runs on them
             run_translator("t6", [os.path.join(REPO, "token.go"), os.path.join(REPO, "tokenize.go")], "gen/TokTable.v", "T6(token.go, tokenize.go)")
+            # translator T2: the primitive type tables (C13_prims ties the validator model's list of primitive names to them)
+            run_translator("t2", [os.path.join(REPO, "primitive.go"), os.path.join(REPO, "gen_templates.go")], "gen/Tables.v", "T2(primitive.go, gen_templates.go)")
             proof_step(run, props_v, theorems, extra_targets=["front/TokTie.v"])
         except BrokenTie as e:
             broken = e
@@ -561,7 +563,7 @@ def check_c13(tier, seed, replay=None):
         "fields; duplicate definition, field, enum-option names; duplicate enum values; duplicate message / union indices; index 0; duplicate opcodes numeric and 4-char; enum value outside its "
         "base type; const not assignable; definition named like a primitive; struct containing itself directly, through another struct, and through a cycle entered from outside) and must be "
         "rejected; the extracted validator model's verdict is compared on every text",
-        "props/C13.v", ["C13_partial", "C13_sound", "C13_recursion", "C13_indices", "C13_enum_range", "C13_accepted"])
+        "props/C13.v", ["C13_partial", "C13_sound", "C13_recursion", "C13_indices", "C13_enum_range", "C13_accepted", "C13_prims"])
     rng = SplitMix64(seed).fork("C13")
     n = 500 if tier == "thorough" else 120
     asts = gen_asts(rng, n, flags_enums=False, imports=False)
